@@ -59,6 +59,7 @@ package cfevesting
 //@ func ExportGenesis(ctx, k) (genesis)
 //@   ensures genesis != nil && genesis.Params.Denom == $vestingDenom
 //@   ensures [vesting-types] exportedTypesOK(genesis)
+//@   ensures [pools] forall i: int :: {genesis.AccountVestingPools[i]} 0 <= i && i < len(genesis.AccountVestingPools) ==> genesis.AccountVestingPools[i] != nil && poolsStored(genesis.AccountVestingPools[i])
 //@   ensures [traces] len(genesis.VestingAccountTraces) == $trListN
 //@     && (forall i: int :: {genesis.VestingAccountTraces[i].Address} 0 <= i && i < $trListN ==> genesis.VestingAccountTraces[i].Address == $trList[i]
 //@        && genesis.VestingAccountTraces[i].Genesis == $trGenesis[$trList[i]] && genesis.VestingAccountTraces[i].FromGenesisPool == $trFromGenesisPool[$trList[i]]
@@ -66,3 +67,5 @@ package cfevesting
 //@   prop C12
 //@ loop ExportGenesis#1
 //@   invariant 0 <= i && i <= len(allAccountVestingPools) && genesis != nil && genesis.Params.Denom == $vestingDenom && exportedTypesOK(genesis)
+//@   invariant len(genesis.AccountVestingPools) == i && off(genesis.AccountVestingPools) == 0
+//@   invariant forall j: int :: {genesis.AccountVestingPools[j]} 0 <= j && j < i ==> genesis.AccountVestingPools[j] != nil && poolsStored(genesis.AccountVestingPools[j])
